@@ -286,7 +286,7 @@ CLAIMED = {
          "run of the round-robin model and to track its state (trace_accepts_rr, trace_tracks_rr in C20_Trace.lean): the oracle is "
          "no stricter than the proved scheduler. Random scheduler (C20_Random.lean): for every operation sequence and EVERY choice "
          "Go's map iteration can make at each Pop — conservation (conservation_random), windows (respects_windows_random), "
-         "per-stream FIFO (fifo_random), a ready stream reached by the iteration is popped and 'nothing' means the reached stream "
+         "per-stream FIFO (fifo_random: Pop takes the front; push_fifo_random: Push appends at the end), a ready stream reached by the iteration is popped and 'nothing' means the reached stream "
          "was not ready (ready_choice_pops, pop_none_random), no panic (random_never_panics). Priority scheduler's Pop "
          "(C20_PrioWin.lean), for every tree, comparator and throttle state: what is handed out is the oldest frame of some "
          "node's queue, whole or cut, within the stream window, connection window and max frame size as they stood at the call "
